@@ -44,7 +44,7 @@ MUTANTS = [
     ('power-method-plain-transpose', 'scikit_tt/solvers/evp.py', "eigenvalue = (eigentensor.transpose(conjugate=True).dot(operator).dot(eigentensor))", "eigenvalue = (eigentensor.transpose().dot(operator).dot(eigentensor))", 'fn:power_method', 'sesquilinear-inner-product'),
     ('init-array-cap-only-without-threshold', 'scikit_tt/tensor_train.py', "                    if max_rank != np.inf:\n                        u = u[:, :np.minimum(u.shape[1], max_rank)]\n                        s = s[:np.minimum(s.shape[0], max_rank)]\n                        v = v[:np.minimum(v.shape[0], max_rank), :]\n\n                    # define new TT core", "                    elif max_rank != np.inf:\n                        u = u[:, :np.minimum(u.shape[1], max_rank)]\n                        s = s[:np.minimum(s.shape[0], max_rank)]\n                        v = v[:np.minimum(v.shape[0], max_rank), :]\n\n                    # define new TT core", 'TT.__init__(array)', 'ranks'),
     ('hod-previous-value-not-copied', 'scikit_tt/solvers/ode.py', "solution_prev = previous_value.copy()", "solution_prev = previous_value", 'fn:hod', 'frame'),
-    ('strang-works-on-stored-state', 'scikit_tt/solvers/ode.py', "    K = __splitting_propagators(S, L, I, M, order, step_size, [0.5, 1])\n\n    # begin splitting\n    # ---------------\n\n    for i in range(number_of_steps):\n\n        # copy previous solution for next step\n        tmp = solution[i].copy()", "    K = __splitting_propagators(S, L, I, M, order, step_size, [0.5, 1])\n\n    # begin splitting\n    # ---------------\n\n    for i in range(number_of_steps):\n\n        # copy previous solution for next step\n        tmp = solution[i]", 'fn:strang_splitting', 'frozen-state'),
+    ('strang-works-on-stored-state', 'scikit_tt/solvers/ode.py', "        tmp = solution[i].copy()\n        tmp = __splitting_stage(K, np.arange(0, order, 2), tmp, threshold, 2 * max_rank)", "        tmp = solution[i]\n        tmp = __splitting_stage(K, np.arange(0, order, 2), tmp, threshold, 2 * max_rank)", 'fn:strang_splitting', 'frozen-state'),
 ]
 
 
